@@ -30,6 +30,9 @@ Open Scope string_scope.
 
 USER_TEXTS = ["USER-TEXT-0", "hello there, what can you do?", "x"]
 BOT_TEXTS = ["BOT-TEXT-0", "Some bot output; with punctuation!"]
+# edge texts: falsy / keyword-like / long / colliding with the refusal; used for user AND bot texts
+LONG_TEXT = "a fairly long text, " * 60
+EDGE_TEXTS = ["", " ", "0", "None", "False", LONG_TEXT, D.REFUSAL]
 
 
 # ---------------------------------------------------------------------------------------
@@ -111,6 +114,24 @@ def gen_cases(rng, tier):
         ov = [rng.choice("AARW") for _ in range(no)]
         bot = rng.choice([None, None, BOT_TEXTS[0]])
         cases.append(mk_case(ni, no, nr, dm, spec, iv, ov, rng.choice(USER_TEXTS), bot, wo))
+    # family D: edge texts (empty, blank, "0", "None", "False", long, equal to the refusal, user text ==
+    # bot text) for the user text and for the supplied bot message, over all 16 subsets.  A supplied
+    # message that is the empty string IS supplied: the table row applies to it like to any other text.
+    pairs = [(USER_TEXTS[0], USER_TEXTS[0])]
+    for e in EDGE_TEXTS:
+        pairs += [(e, e), (e, BOT_TEXTS[0]), (USER_TEXTS[0], e)]
+    vecs = [("AA", "AA"), ("WA", "AW"), ("AR", "AA"), ("AA", "RA"), ("EA", "AE"), ("AE", "EA")]
+    i = 0
+    for s in subs:
+        for (u, b) in pairs:
+            iv, ov = vecs[i % len(vecs)]
+            i += 1
+            bot = None if "dialog" in s else b
+            cases.append(mk_case(2, 2, 1, "flows", s, iv, ov, u, bot))
+    for (u, b) in pairs:
+        for s in (["output"], ["input", "output"], ["input"]):
+            cases.append(mk_case(1, 1, 0, "general", s, "A", "A", u, None if s == ["input"] else b))
+            cases.append(mk_case(1, 1, 0, "general", s, "E", "E", u, None if s == ["input"] else b))
     # the documentation writes the supplied message with role "bot"; this snapshot only recognises
     # "assistant" (observed and reported, not judged)
     for s in (["input", "output"], ["output"]):
@@ -158,7 +179,7 @@ def coq_spec(case):
 def coq_verdicts(vs, kind):
     out = []
     for k, v in enumerate(vs):
-        out.append({"A": "Accept", "R": "Reject"}.get(v) or f"(Rewrite {q(D.rewrite_text(kind, k))})")
+        out.append({"A": "Accept", "R": "Reject", "E": '(Rewrite "")'}.get(v) or f"(Rewrite {q(D.rewrite_text(kind, k))})")
     return C.coq_list(out)
 
 
@@ -227,6 +248,8 @@ def spec_rails(vs, kind, text):
             return None, k, k + 1
         if v == "W":
             text = D.rewrite_text(kind, k)
+        if v == "E":
+            text = ""
     return text, None, len(vs)
 
 
@@ -449,8 +472,10 @@ def run(tier, seed, replay=None):
                 out.findings.append(C.Finding(sig, msg, {"kind": "e2e", "case": case, "observed": {k: v for k, v in obs.items() if k != "plog"}}))
             if any(v == "R" for v in case["iv"] + case["ov"]):
                 dist["blocked"] += 1
-            if any(v == "W" for v in case["iv"] + case["ov"]):
+            if any(v in ("W", "E") for v in case["iv"] + case["ov"]):
                 dist["rewritten"] += 1
+            if case["user"] in EDGE_TEXTS or case["bot"] in EDGE_TEXTS or case["user"] == case["bot"]:
+                dist["edge_texts"] = dist.get("edge_texts", 0) + 1
         try:
             t = coq_case(case, obs)
         except ValueError as ex:
